@@ -63,6 +63,10 @@ BUILT = {
    "exhaustive enumeration of sibling arrangements of whitespace / non-whitespace / Unicode-space text, elements and comments under nested xml:space values; result compared with the statement's definition",
    "Every sequence of up to 4 (5) children from a 10-item menu under 2 (3) levels of xml:space values, called on the document, the element and a text node; removed set must be exactly the model's, everything else identical with the same handles; second call changes nothing.",
    "Empty text nodes are outside the alphabet."),
+ "C19": ("exploration", "xotmc/E-TREE+E-CFG+HtmlScan",
+   "exhaustive enumeration of HTML / XHTML / MathML / SVG / foreign element trees x text and attribute strings x parameters; output scanned by an independent HTML tokenizer and walked in lock-step with the tree",
+   "Single elements (11 names x 5 namespaces x declaration styles x attribute and text strings over {<,&,\",',>,U+00A0,x}), all ordered sibling pairs of 19 children under 4 parents, detached nodes of every kind and text under a document, x CDATA-section elements x indentation: no panic, doctype first, HTML elements unprefixed / never self-closed / end tag unless void, MathML and SVG under their default namespace, text and attribute escaping, PIs containing '>' refused.",
+   "Trusts HtmlScan (120 lines). script / style with element children and foreign elements named script / style are outside the alphabet (not representable in HTML)."),
  "C20": ("exploration", "xotmc/E-TREE x programs",
    "exhaustive enumeration of small documents x all permutations of the attach steps x two neighbour preferences, plus parse and fixed:: routes; trees compared by read-back, deep_equal and bytes",
    "Every abstract document up to the step bound is built by parsing its rendering, by fixed::Document/Element xotify and by every order of stepwise attachment (append/prepend/insert_before/insert_after, bottom-up included); all must read back as the abstract document and serialise identically.",
